@@ -88,6 +88,8 @@ def generate(rng, n, tier, stats):
                 for l in a['labels']: size *= len(l)
                 a['flat'] = [float(x) + 100 * len(cases) % 7 for x in range(size)] if a['dtype'] == 'f' else list(range(size))
             r = d if rng.random() < 0.6 else arrays[0]['dims'].index(d)
+            if not isinstance(r, str) and rng.random() < 0.35: r -= len(arrays[0]['dims'])      # the same axis, counted from the end
+            stats['concat_axis']['name' if isinstance(r, str) else 'position' if r >= 0 else 'negative position'] += 1
             cases.append({'ins': arrays, 'ops': [['concatenate', r, align, sort]]})
     return cases
 
